@@ -28,6 +28,7 @@ C19-a layout agreement (byte-layout extraction) for the ext4 inode (split uid/gi
 C19-b frame conditions: ext4 Chmod stores only permission fields of the inode, Chown only owner/group, Chtimes only the three time fields; the FAT attribute setters store only their own flag.
 C19-c type mappings are total: the file-type switch tables that translate on-disk types to modes and back have a case for every type constant; wherever a mode is compared with an os.Mode* type constant it has been reduced to its type bits first (m & T, m & os.ModeType, m.Type()).
 C19-d the packed DOS date and time words: the decoder takes each component from the bit offset where the encoder puts it, with a mask exactly as wide as the field.
+C19-e the ext4 timestamp pair (32-bit seconds word + 2 epoch bits in the extra word): the decoder widens the seconds word as a signed 32-bit number, so the encoder must derive the epoch bits from the difference between the seconds and their signed 32-bit truncation (the kernel's formula) and not from the raw bits above bit 31; both sides use the same signedness.
 C19-f the FAT attribute byte (11) and case byte (12) are built from single-bit updates; the set of values the encoder can leave in the byte is closed under OR with every caller-settable flag bit (read-only, hidden, system, archive; the two case bits), so no combination of flags loses a member when a directory is written.
 Not covered: representable ranges (pre-1980 FAT dates), the 59/60-byte symlink boundary, collection of host metadata at finalize time.`)
 }
@@ -127,6 +128,8 @@ func runC19(w *World, r *Report) {
 	c19TypeTests(w, r)
 	c19DosTime(w, r)
 	c19FatFlagBits(w, r)
+	c19Ext4TimeSign(w, r, "C19-e")
+	r.Floor("C19-e", r.countRule("C19-e"), 1)
 	r.Floor("C19-f", r.countRule("C19-f"), 2)
 	r.Floor("C19-d", r.countRule("C19-d"), 8)
 	r.Floor("C19-c", r.countRule("C19-c"), 3)
@@ -645,4 +648,79 @@ func c19FatFlagBits(w *World, r *Report) {
 		r.Check(missing == "", "C19-f", name, fmt.Sprintf("flag bits of byte %d are set independently", cellIdx), w.relFile(enc.Pos()), fmt.Sprintf("%d encodable values, closed under OR", count),
 			"the encoder cannot write every combination of the flag bits of this byte ("+missing+"): the decoder reads each flag as an independent bit, so an entry that has both flags set loses one of them when the directory is written (e.g. the archive bit of a directory)")
 	}
+}
+
+// c19Ext4TimeSign (C19-e): signedness agreement of the ext4 seconds word between inode.toBytes and inodeFromBytes.
+func c19Ext4TimeSign(w *World, r *Report, rule string) {
+	dec := w.Func("filesystem/ext4", "inodeFromBytes")
+	enc := w.Method("filesystem/ext4", "inode", "toBytes")
+	isInt32 := func(t types.Type) bool {
+		b, ok := t.Underlying().(*types.Basic)
+		return ok && b.Kind() == types.Int32
+	}
+	// decoder: a binary Uint32 result converted to int32 (sign extension when widened afterwards)
+	decSigned := false
+	for _, f := range withClosures(dec) {
+		allInstrs(f, func(ins ssa.Instruction) {
+			cv, ok := ins.(*ssa.Convert)
+			if !ok || !isInt32(cv.Type()) {
+				return
+			}
+			if c, ok := cv.X.(*ssa.Call); ok && isBinaryDecode(c) {
+				decSigned = true
+			}
+		})
+	}
+	// encoder: in the closure(s) that call time.Time.Unix, the value masked with 3 (the epoch bits)
+	encSigned, found := false, false
+	at := enc.Pos()
+	for _, f := range withClosures(enc) {
+		if len(calls(f, false, func(c ssa.CallInstruction) bool { return isStdCall(c, "(time.Time).Unix") })) == 0 {
+			continue
+		}
+		allInstrs(f, func(ins ssa.Instruction) {
+			and, ok := ins.(*ssa.BinOp)
+			if !ok || and.Op != token.AND {
+				return
+			}
+			if k, isC := constInt(and.Y); !isC || k != 3 {
+				return
+			}
+			found = true
+			at = and.Pos()
+			seen := map[ssa.Value]bool{}
+			var walk func(v ssa.Value, d int)
+			walk = func(v ssa.Value, d int) {
+				if v == nil || seen[v] || d > 12 {
+					return
+				}
+				seen[v] = true
+				if cv, ok := v.(*ssa.Convert); ok && isInt32(cv.Type()) {
+					encSigned = true
+				}
+				if bo, ok := v.(*ssa.BinOp); ok && bo.Op == token.ADD {
+					for _, o := range []ssa.Value{bo.X, bo.Y} {
+						if k, isC := constInt(o); isC && k == 0x80000000 {
+							encSigned = true // (sec + 2^31) >> 32: the same split written with a bias
+						}
+					}
+				}
+				if in, ok := v.(ssa.Instruction); ok {
+					for _, op := range in.Operands(nil) {
+						if op != nil && *op != nil {
+							walk(*op, d+1)
+						}
+					}
+				}
+			}
+			walk(and.X, 0)
+		})
+	}
+	if !found {
+		r.Undecided(rule, fnName(enc), "epoch bits of the ext4 timestamps", w.relFile(enc.Pos()), "no value masked with 3 found next to time.Unix() in the inode encoder")
+		return
+	}
+	r.Check(decSigned == encSigned, rule, fnName(enc), "seconds word has one signedness in encoder and decoder", w.relFile(at),
+		fmt.Sprintf("decoder signed=%v, encoder signed=%v", decSigned, encSigned),
+		fmt.Sprintf("the inode decoder widens the 32-bit seconds word as a %s number, but the encoder derives the two epoch bits as if it were %s: a time before 1970 or after 2038-01-19 (bit 31 of the seconds set) reads back 2^32 seconds (136 years) or more away from what was written", map[bool]string{true: "signed", false: "unsigned"}[decSigned], map[bool]string{true: "signed", false: "unsigned"}[encSigned]))
 }
